@@ -134,6 +134,21 @@ def renaming(path, qualname, cur_fn):
     return out
 
 
+def new_params(path, qualname, cur_fn):
+    """parameters of the current function that its reference version (the one the contract was written for) does not have:
+    more positional parameters than before, or keyword-only names that did not exist.  A contract says nothing about them."""
+    ref = _ref_function(path, qualname)
+    if ref is None:
+        return []
+    ra, ca = ref.args, cur_fn.args
+    ref_pos = [a.arg for a in ra.posonlyargs + ra.args]
+    cur_pos = [a.arg for a in ca.posonlyargs + ca.args]
+    out = cur_pos[len(ref_pos):]
+    ref_kw = {a.arg for a in ra.kwonlyargs}
+    out += [a.arg for a in ca.kwonlyargs if a.arg not in ref_kw and len(ca.kwonlyargs) > len(ra.kwonlyargs)]
+    return out
+
+
 def rename_text(text, ren):
     """apply the renaming to the source text of an expression (a loop header)"""
     if not ren or text is None:
